@@ -53,7 +53,7 @@ ASSUMPTIONS = ['an "empty" provider answer is the library\'s empty marker False;
 EXHAUSTIVE = ['fault plans {ok,exc,empty,malformed}^k x all k! priority orders x 14 methods for k<=3 (quick) and k<=4 (thorough), cold cache']
 
 # ---- known deviation keys (mechanisms)
-K_LIMIT_BALANCE = 'C20/error-limit/getbalance-returns-zero'
+K_LIMIT_BALANCE = 'C20/error-limit/getbalance-failed-batch-counted-as-zero'
 K_LIMIT_FEE = 'C20/error-limit/estimatefee-returns-network-default'
 K_LIMIT_ISSPENT = 'C20/error-limit/isspent-returns-false'
 K_LIMIT_FEE_CACHED = 'C20/error-limit/estimatefee-network-default-served-from-cache'
@@ -639,7 +639,7 @@ def judge_call(callrec, col, case):
         tolerated = any_may_fail or any_malformed or W.poisoned
         if m == 'getinputvalues' and not callrec['execs']:
             tolerated = True
-        if not callrec['execs'] and m in ('gettransactions',) :
+        if not callrec['execs'] and m == 'gettransactions':
             tolerated = True
         if m == 'blockcount' and not callrec['execs'] and W.last_bc_failed:
             tolerated = True          # a failed look-up is remembered for BLOCK_COUNT_CACHE_TIME seconds
@@ -688,8 +688,18 @@ def judge_call(callrec, col, case):
             if not ok or not any(_same(ret, s) for s in sums):
                 problems.append(('fabricated', 'getbalance returned %s which is not the sum of provider answers / stored balances' % _short(ret)))
                 lim = [r for r in execs if r['exp']['stop'] == 'limit' and r['exp']['must_fail'] and r['ret'] is False]
-                good = sum(e['value'] for grp, r in zip(fresh, execs) for e in grp[:1] if r not in lim and isinstance(e['value'], int))
-                if lim and type(ret) is int and ret == good and all((r in lim) or grp for grp, r in zip(fresh, execs)):
+                # narrow shape of the known deviation: the batches that stopped at the limit contribute 0, every other
+                # batch contributes the answer of one of its result providers
+                part = {0}
+                for grp, r in zip(fresh, execs):
+                    if r in lim:
+                        continue
+                    vals = [e['value'] for e in grp if isinstance(e['value'], (int, float)) and not isinstance(e['value'], bool)]
+                    part = {s_ + v for s_ in part for v in vals}
+                for a in [a for a in spec['addrs_real'] if a not in asked]:
+                    name = [n for n, s_ in c.addr.items() if s_ == a][0]
+                    part = {s_ + v for s_ in part for v in (c.balance_candidates(name) | set(W.reg_bal.get(a, [])))}
+                if lim and type(ret) in (int, float) and any(_same(ret, s_) for s_ in part):
                     key = K_LIMIT_BALANCE
             elif len(execs) == 1 and len(execs[0]['args'][0]) == 1 and fresh[0]:
                 W.reg_bal.setdefault(execs[0]['args'][0][0], []).extend(e['value'] for e in fresh[0])
@@ -754,6 +764,11 @@ def judge_call(callrec, col, case):
                         problems.append(('fabricated', 'getinputvalues set input value %s, chain says %s' % (_short(i.value), ci['value'])))
     # bookkeeping visible on the Service after the call (observe_at): results/errors describe the last loop
     srv = callrec.get('srv')
+    if srv is not None and not failed and not problems and m in ('gettransaction', 'getrawtransaction', 'estimatefee'):
+        from_cache = not execs
+        n = getattr(srv, 'results_cache_n', None)
+        if from_cache != bool(n):
+            problems.append(('bookkeeping', '%s answered from %s but results_cache_n=%r' % (m, 'the cache' if from_cache else 'a provider', n)))
     own = [r for r in callrec['execs'] if r['svc'] is srv]
     if srv is not None and own and m != 'construct':
         last = own[-1]
@@ -832,8 +847,6 @@ def _judge_list(callrec, ret, fresh, execs, what, any_malformed):
     else:
         suffix = []
     prefix = ret[:len(ret) - len(suffix)]
-    if prefix:
-        pass
     seen = set()
     for n_el, el in enumerate(ret):
         if what == 'tx':
